@@ -173,4 +173,212 @@ theorem bump_fast_refines (vm : VMConsts) (debug : Bool) (ka km kx : Nat) (b : B
   simp only [bumpAlloc, e]
   rw [if_neg (by omega), hb]
 
+/-! ### slow path: `acquire_block` -/
+
+/-- a fresh buffer `[start, start + cap)` whose capacity includes the worst-case alignment slack
+(`size + align - MIN_ALIGNMENT`, i.e. `get_maximum_aligned_size(size, align)`) always serves the
+request — the sufficient condition every `set_limit … ; self.alloc(…)` sequence relies on. -/
+theorem fresh_buffer_fits (vm : VMConsts) (debug : Bool) (ka km kx : Nat) (start cap size align offset : Nat)
+    (H : BumpLegal vm ka km kx ⟨start, start + cap⟩ size align offset)
+    (hcap : size + align ≤ cap + vm.minAlign) :
+    ∃ res b', bumpAllocAligned vm debug ⟨start, start + cap⟩ size align offset = .ok res b' ∧
+      (res + offset) % align = 0 ∧ start ≤ res ∧ res + size ≤ start + cap ∧
+      b' = ⟨res + size, start + cap⟩ := by
+  obtain ⟨r, hr, hge, hpad, hmod, hrk, hreq⟩ :=
+    alignAllocation_good vm debug ka km kx start align offset H.legal H.cursorSmall H.cursorAligned
+  rcases bump_fast_cases vm debug ka km kx ⟨start, start + cap⟩ size align offset H with ⟨hno, _⟩ | ⟨hfit, e⟩
+  · exfalso
+    simp only at hno
+    omega
+  · simp only at hfit e
+    rw [← hreq] at hfit e
+    exact ⟨r, _, e, hmod, hge, hfit, rfl⟩
+
+private theorem wnot_pow_mask (k : Nat) (hk : k < 64) : wnot (2^k - 1) = 2^64 - 2^k := by
+  have := two_pow_lt_64 hk
+  have : 0 < 2^k := Nat.two_pow_pos _
+  unfold wnot; omega
+
+/-- generic in the block size so that no proof step computes with the literal -/
+private theorem roundUp_mask (size k : Nat) (hk : k < 64) (hs : size + (2^k - 1) < 2^64) :
+    (size + (2^k - 1)) &&& wnot (2^k - 1) = size + (2^k - 1) - (size + (2^k - 1)) % 2^k := by
+  rw [wnot_pow_mask k hk, and_not_mask _ k (by omega) hs]
+
+private theorem cadd_fits (debug : Bool) (a b : Nat) (h : a + b < 2^64) : cadd debug a b = some (a + b) := by
+  unfold cadd; rw [if_pos h]
+
+private theorem roundUpMask_pow (debug : Bool) (size k : Nat) (hk : k < 64) (hs : size + (2^k - 1) < 2^64) :
+    roundUpMask debug (2^k - 1) size = some (size + (2^k - 1) - (size + (2^k - 1)) % 2^k) := by
+  unfold roundUpMask
+  rw [cadd_fits debug _ _ hs]
+  simp only [roundUp_mask size k hk hs]
+
+private theorem bumpBlockMask_eq : bumpBlockMask = 2^15 - 1 := by decide
+
+/-- `block_size = (size + BLOCK_MASK) & !BLOCK_MASK` is `size` rounded up to a multiple of the
+32 KB block: it covers `size` — and nothing else: **no alignment slack is included**. -/
+theorem acquireBlockSize_spec (debug : Bool) (size : Nat) (hs : size + 32767 < 2^64) :
+    ∃ bs, acquireBlockSize debug size = some bs ∧ bs = size + 32767 - (size + 32767) % 32768 ∧
+      size ≤ bs ∧ bs < size + 32768 ∧ bs % 32768 = 0 := by
+  have h := roundUpMask_pow debug size 15 (by omega) (by omega)
+  refine ⟨size + (2^15 - 1) - (size + (2^15 - 1)) % 2^15, ?_, by omega, by omega, by omega, by omega⟩
+  unfold acquireBlockSize
+  rw [bumpBlockMask_eq]
+  exact h
+
+/-- a request presented to `acquire_block` with the block `space.acquire` returned at `start` -/
+structure FreshLegal (vm : VMConsts) (ka km kx : Nat) (start size align offset : Nat) : Prop where
+  legal : LegalAlign vm ka km kx align offset vm.minAlign
+  startAligned : vm.minAlign ∣ start
+  small : start + size + 32768 + align < 2^63
+
+/-- generic block size `2^k` -/
+private theorem fresh_block_cases_pow (vm : VMConsts) (debug : Bool) (ka km kx k : Nat)
+    (start size align offset : Nat) (hk : k < 64)
+    (L : LegalAlign vm ka km kx align offset vm.minAlign) (hst : vm.minAlign ∣ start)
+    (hsm : start + size + 2^k + align < 2^63) :
+    ∃ bs, roundUpMask debug (2^k - 1) size = some bs ∧
+      bs = size + (2^k - 1) - (size + (2^k - 1)) % 2^k ∧
+      ((padSpec start align offset + size ≤ bs ∧
+          acquireBlockWith vm debug (2^k - 1) size align offset start =
+            .ok (start + padSpec start align offset)
+              ⟨start + padSpec start align offset + size, start + bs⟩) ∨
+       (bs < padSpec start align offset + size ∧
+          acquireBlockWith vm debug (2^k - 1) size align offset start = .slow)) := by
+  have hp : 0 < 2^k := Nat.two_pow_pos _
+  have hbs := roundUpMask_pow debug size k hk (by omega)
+  refine ⟨_, hbs, rfl, ?_⟩
+  generalize hB : size + (2^k - 1) - (size + (2^k - 1)) % 2^k = bs at hbs ⊢
+  have hml := Nat.mod_lt (size + (2^k - 1)) hp
+  have hlim : start + bs < 2^64 := by omega
+  have hacq : acquireBlockWith vm debug (2^k - 1) size align offset start =
+      bumpAllocAligned vm debug ⟨start, start + bs⟩ size align offset := by
+    unfold acquireBlockWith
+    rw [hbs]
+    simp only [cadd_fits debug _ _ hlim]
+  rw [hacq]
+  have HB : BumpLegal vm ka km kx ⟨start, start + bs⟩ size align offset :=
+    ⟨L, hst, by simp only; omega, by omega⟩
+  rcases bump_fast_cases vm debug ka km kx ⟨start, start + bs⟩ size align offset HB with ⟨hno, e⟩ | ⟨hfit, e⟩
+  · right; simp only at hno e; exact ⟨by omega, e⟩
+  · left; simp only at hfit e; exact ⟨by omega, e⟩
+
+/-- **the precise condition under which a fresh block fits the aligned request**: with
+`bs = roundup(size, 32 KB)` (what `acquire_block` asks the space for) and
+`pad = padSpec start align offset`, `acquire_block` succeeds iff `pad + size ≤ bs`; otherwise the
+allocation falls through to `alloc_slow` *again* although the block was acquired for this very
+request. -/
+theorem fresh_block_cases (vm : VMConsts) (debug : Bool) (ka km kx : Nat) (start size align offset : Nat)
+    (H : FreshLegal vm ka km kx start size align offset) :
+    ∃ bs, acquireBlockSize debug size = some bs ∧ bs = size + 32767 - (size + 32767) % 32768 ∧
+      ((padSpec start align offset + size ≤ bs ∧
+          acquireBlock vm debug size align offset start =
+            .ok (start + padSpec start align offset)
+              ⟨start + padSpec start align offset + size, start + bs⟩) ∨
+       (bs < padSpec start align offset + size ∧
+          acquireBlock vm debug size align offset start = .slow)) := by
+  obtain ⟨L, hk, hsm⟩ := H
+  obtain ⟨bs, h1, h2, h3⟩ :=
+    fresh_block_cases_pow vm debug ka km kx 15 start size align offset (by omega) L hk (by omega)
+  refine ⟨bs, ?_, by omega, ?_⟩
+  · unfold acquireBlockSize; rw [bumpBlockMask_eq]; exact h1
+  · unfold acquireBlock; rw [bumpBlockMask_eq]; exact h3
+
+/-- … as an equivalence -/
+theorem fresh_block_fits_iff (vm : VMConsts) (debug : Bool) (ka km kx : Nat) (start size align offset : Nat)
+    (H : FreshLegal vm ka km kx start size align offset) :
+    (∃ res b', acquireBlock vm debug size align offset start = .ok res b') ↔
+      padSpec start align offset + size ≤ size + 32767 - (size + 32767) % 32768 := by
+  obtain ⟨bs, _, hbe, hc⟩ := fresh_block_cases vm debug ka km kx start size align offset H
+  rw [← hbe]
+  rcases hc with ⟨h1, e⟩ | ⟨h1, e⟩
+  · exact ⟨fun _ => h1, fun _ => ⟨_, _, e⟩⟩
+  · constructor
+    · rintro ⟨res, b', h⟩; rw [e] at h; cases h
+    · intro h; omega
+
+/-- when it succeeds the result has all of C03's arithmetic clauses w.r.t. the acquired block -/
+theorem fresh_block_ok (vm : VMConsts) (debug : Bool) (ka km kx : Nat) (start size align offset : Nat)
+    (H : FreshLegal vm ka km kx start size align offset) (res : Nat) (b' : Bump)
+    (h : acquireBlock vm debug size align offset start = .ok res b') :
+    ∃ bs, acquireBlockSize debug size = some bs ∧ (res + offset) % align = 0 ∧ start ≤ res ∧
+      res + size ≤ start + bs ∧ b' = ⟨res + size, start + bs⟩ := by
+  obtain ⟨bs, hbs, _, hc⟩ := fresh_block_cases vm debug ka km kx start size align offset H
+  obtain ⟨r, _, hge, _, hmod, _, hreq⟩ :=
+    alignAllocation_good vm debug ka km kx start align offset H.legal (by have := H.small; omega) H.startAligned
+  refine ⟨bs, hbs, ?_⟩
+  rcases hc with ⟨h1, e⟩ | ⟨_, e⟩
+  · rw [e] at h
+    injection h with e1 e2
+    subst e1 e2
+    rw [← hreq]
+    exact ⟨hmod, hge, by omega, rfl⟩
+  · rw [e] at h; cases h
+
+/-- `acquire_block` never panics on a legal request -/
+theorem fresh_block_never_panics (vm : VMConsts) (debug : Bool) (ka km kx : Nat) (start size align offset : Nat)
+    (H : FreshLegal vm ka km kx start size align offset) :
+    acquireBlock vm debug size align offset start ≠ .panic := by
+  obtain ⟨bs, _, _, hc⟩ := fresh_block_cases vm debug ka km kx start size align offset H
+  rcases hc with ⟨_, e⟩ | ⟨_, e⟩ <;> rw [e] <;> intro h <;> cases h
+
+/-- ordinary callers (`offset` a multiple of `align`, block starts are page- hence `align`-aligned)
+never see the problem: no padding is needed at the start of the block -/
+theorem fresh_block_fits_offset_multiple (vm : VMConsts) (debug : Bool) (ka km kx : Nat)
+    (start size align offset : Nat) (H : FreshLegal vm ka km kx start size align offset)
+    (hsa : align ∣ start) (hoa : align ∣ offset) :
+    ∃ b', acquireBlock vm debug size align offset start = .ok start b' := by
+  have hp : padSpec start align offset = 0 := by
+    unfold padSpec
+    rw [Nat.mod_eq_zero_of_dvd (Nat.dvd_add hsa hoa), Nat.sub_zero, Nat.mod_self]
+  obtain ⟨bs, _, hbe, hc⟩ := fresh_block_cases vm debug ka km kx start size align offset H
+  rw [hp] at hc
+  rcases hc with ⟨_, e⟩ | ⟨h1, _⟩
+  · exact ⟨_, e⟩
+  · omega
+
+/-- **defect `gc:bump-align-leak`, every block**: `alloc(32744, align 64, offset 8)` does NOT fit the
+32 KB block `acquire_block` acquires for it, wherever the (64-byte aligned — blocks are page
+aligned) block lies: `pad = 56`, `56 + 32744 = 32800 > 32768`.  `alloc` therefore re-enters
+`alloc_slow`, which acquires the next fresh block with the same outcome: the call does not terminate
+normally (it leaks a block per retry until the space is exhausted). -/
+theorem bump_align_leak (debug : Bool) (start : Nat) (hs : 64 ∣ start) (hsm : start + 65600 < 2^63) :
+    acquireBlock vmDefault debug 32744 64 8 start = .slow := by
+  have L : LegalAlign vmDefault 6 3 6 64 8 vmDefault.minAlign :=
+    ⟨rfl, rfl, rfl, by omega, ⟨1, rfl⟩, by omega, Nat.le_refl _⟩
+  have hk : vmDefault.minAlign ∣ start := by
+    show 8 ∣ start
+    exact Nat.dvd_trans ⟨8, rfl⟩ hs
+  have H : FreshLegal vmDefault 6 3 6 start 32744 64 8 := ⟨L, hk, by omega⟩
+  obtain ⟨bs, _, hbe, hc⟩ := fresh_block_cases vmDefault debug 6 3 6 start 32744 64 8 H
+  have hp : padSpec start 64 8 = 56 := by unfold padSpec; omega
+  rw [hp] at hc
+  rcases hc with ⟨h1, _⟩ | ⟨_, e⟩
+  · omega
+  · exact e
+
+/-- the `decide` witness of the defect on the executable definitions (both build profiles) -/
+theorem bump_align_leak_witness :
+    acquireBlockSize true 32744 = some 32768 ∧
+    acquireBlock vmDefault true 32744 64 8 0x20000000000 = .slow ∧
+    acquireBlock vmDefault false 32744 64 8 0x20000000000 = .slow ∧
+    -- the same request with `offset = 0` fits, and so does one 40 bytes smaller
+    acquireBlock vmDefault true 32744 64 0 0x20000000000 = .ok 0x20000000000 ⟨0x20000007fe8, 0x20000008000⟩ ∧
+    acquireBlock vmDefault true 32704 64 8 0x20000000000 = .ok 0x20000000038 ⟨0x20000007ff8, 0x20000008000⟩ := by
+  decide
+
+/-- … and the repair: a block sized for `get_maximum_aligned_size(size, align)` (as
+`LargeObjectAllocator` and `mi_bin` do) always fits. -/
+theorem fresh_block_with_slack_fits (vm : VMConsts) (debug : Bool) (ka km kx : Nat)
+    (start size align offset m bs : Nat) (H : FreshLegal vm ka km kx start size align offset)
+    (_hm : maxAlignedSize vm debug size align vm.minAlign = some m) (hmm : size + align ≤ m + vm.minAlign)
+    (hbs : m ≤ bs) (hb2 : start + bs + align < 2^63) :
+    ∃ res b', bumpAllocAligned vm debug ⟨start, start + bs⟩ size align offset = .ok res b' ∧
+      (res + offset) % align = 0 ∧ start ≤ res ∧ res + size ≤ start + bs := by
+  have HB : BumpLegal vm ka km kx ⟨start, start + bs⟩ size align offset :=
+    ⟨H.legal, H.startAligned, by have := H.small; simp only; omega, by have := H.small; omega⟩
+  obtain ⟨res, b', h, h1, h2, h3, _⟩ :=
+    fresh_buffer_fits vm debug ka km kx start bs size align offset HB (by omega)
+  exact ⟨res, b', h, h1, h2, h3⟩
+
 end Mmtk.AllocArith
